@@ -74,6 +74,13 @@ def r2(ctx):
                     if lv.get('k') == 'CXXOperatorCallExpr' and lv.get('op') == '[]' and len(lv.get('args', [])) == 2 and \
                             fn.key(lv['args'][0]) == strkey and fn.ref_decl(lv['args'][1]) == cur:
                         stores.append(nid)
+            # in-place rewrites at the cursor through string members: X.replace(cursor, ...), X.erase/insert(cursor...)
+            for c2 in fn.all('CXXMemberCallExpr'):
+                cv = fn.nodes[c2]
+                base = (cv.get('callee') or '').split('::')[-1]
+                if base in ('replace', 'insert', 'assign') and 'obj' in cv and fn.key(cv['obj']) == strkey and cv.get('args') and \
+                        fn.ref_decl(cv['args'][0]) == cur:
+                    stores.append(c2)
             if not stores:
                 continue
             ctx.touch(fn)
